@@ -1,8 +1,16 @@
 #!/bin/bash
-# sweep.sh [quick|thorough] : run every registered check once, print a one-line summary per check
-cd /verif
-T=${1:-quick}
-for c in $(python3 -c "import json;print(' '.join(x['property_id'] for x in json.load(open('MANIFEST.json'))['checks']))"); do
-  s=$(date +%s); ./run.sh $c $T > /tmp/sweep_$c.log 2>&1; rc=$?; e=$(( $(date +%s) - s ))
-  echo "$c rc=$rc ${e}s viol=$(grep -c '^VIOLATION' /tmp/sweep_$c.log) known=$(grep -c '^KNOWN-FINDING' /tmp/sweep_$c.log) $(grep -o 'exhaustive=[a-z]*' /tmp/sweep_$c.log | tail -1)"
+# sweep.sh [quick|thorough] [ids…] : run every registered check once, print a one-line summary per check.
+# Works from a `vp run` snapshot too: evidence and replays of the sweep go to <root>/sweep_out, not to /verif.
+ROOT="$(cd "$(dirname "$0")/.." && pwd)"
+cd "$ROOT"
+T=${1:-quick}; shift
+. ./env.sh
+if [ ! -x bin/timc ]; then ./setup.sh >/dev/null || { echo "setup failed"; exit 2; }; fi
+if [ "$ROOT" != "/verif" ]; then export VERIF_EVIDENCE_DIR="$ROOT/sweep_out/evidence" VERIF_REPLAY_DIR="$ROOT/sweep_out/replays"; mkdir -p "$ROOT/sweep_out"; fi
+IDS="$*"
+[ -z "$IDS" ] && IDS=$(python3 -c "import json;print(' '.join(x['property_id'] for x in json.load(open('MANIFEST.json'))['checks']))")
+for c in $IDS; do
+  s=$(date +%s); ./bin/timc check $c --tier $T > /tmp/sweep_${T}_$c.log 2>&1; rc=$?; e=$(( $(date +%s) - s ))
+  echo "$c rc=$rc ${e}s viol=$(grep -c '^VIOLATION' /tmp/sweep_${T}_$c.log) known=$(grep -c '^KNOWN-FINDING' /tmp/sweep_${T}_$c.log) $(grep -o 'exhaustive=[a-z]*' /tmp/sweep_${T}_$c.log | tail -1)"
+  grep '^VIOLATION' -A1 /tmp/sweep_${T}_$c.log | grep 'sig=' | head -5 | cut -c1-220
 done
